@@ -25,6 +25,7 @@ var chkAlloc = pipeCheck{"R_alloc_violation", "where_not (fun c => alloc_ok regs
 var chkSim = pipeCheck{"R_sim_violation", "where_not (fun c => sim_ok (snd c)) cases", "violation", "the proved validator rejects the allocation: under the model's (exact) liveness a definition shares storage with another live value"}
 var chkDisc = pipeCheck{"R_discipline_mismatch", "where_not (fun c => discipline_ok (snd c)) cases", "mismatch", "hypothesis of model_regalloc_preserves_semantics not met by an instruction the real constructors built: a virtual register it reads or writes is not among its operands"}
 var chkBind = pipeCheck{"R_bind_violation", "where_not (fun c => bind_ok regs (snd c)) cases", "violation", "bound code is not the substitution instance: virtual register remains, width view changed, or an author-named register was altered"}
+var chkCFG = pipeCheck{"R_cfg_violation", "where_not cfg_obs_ok cases", "violation", "the successors/predecessors the pipeline computed are not the control-flow graph of the function (C09 rules on the nodes after the label clean-ups)"}
 var chkBP = pipeCheck{"R_bp_violation", "where_not (fun c => bp_ok regs (fattrs (fst c)) (snd c)) cases", "violation", "function writes the base pointer but gets no frame (or NOFRAME is not refused)"}
 
 // emitPipelineCases runs every program through the staged real passes and writes sharded case files.
